@@ -27,7 +27,11 @@ for p in props:
             'na', 'check not built yet in this session (Lean model and correspondence under construction); not claimed')})
 manifest = {
     'version': 1,
-    'setup_cmd': 'cd lean && lake build USimModel driver',
+    # (the lemma chains of the whole-machine views do not depend on the files generated from /repo: built once here, so that no
+    # check has to build them inside its own time)
+    'setup_cmd': 'cd lean && lake build USimModel driver ' + ' '.join('USimModel.Props.' + m for m in (
+        'Machine', 'MachineTrace', 'MachineFifo', 'MachineSignals', 'MachineTasks', 'MachineObjects', 'MachineStructure',
+        'MachineLock', 'MachineQueue', 'MachineChannel', 'MachineCancel', 'MachineResources', 'MachineFailures')),
     'hooks': {
         'guard': 'USIM_VERIF',
         'enable': 'none needed: all observation is harness-side (no source hooks in /repo); the guard name is reserved and unused',
